@@ -145,11 +145,12 @@ class MultiOperator(Operator):
 
         if not name:  # default name
             name = " | ".join([op.name for op in operators])
-        if duration is None:  # use sum of durations
-            duration = self.duration
-
-        # init parent class
+        # init parent class (an explicit duration is checked, the sum of the members' is not:
+        # it may be transiently negative when the group starts with an Offset)
+        total = self.duration
         super().__init__(name=name, duration=duration)
+        if duration is None:  # use sum of durations
+            self.duration = total
 
     def _apply(self, sm):
         """apply sequence of operators to state matrix"""
